@@ -16,7 +16,9 @@ import RedisVerif.Model.Resp
     * the constant `HEADER_LEN = 14` of the four recognisers exactly as written (the headers
       `*2\r\n$3\r\nGET\r\n` / `*3\r\n$3\r\nSET\r\n` they compare against are 13 bytes long) — it is the
       parameter `headerLen` so that the "obvious fix" 13 is a statement about the same model,
-    * the `usize` arithmetic of the recognisers as in a release build (wrapping), slices that panic.
+    * the `usize` arithmetic of the recognisers: `checked_add` + decline on overflow (after the fix
+      commit; `checked = true`) or wrapping as in a release build (`checked = false`, the pinned
+      code), slices that panic.
 
   What a command DOES is not part of this model: an action says which frame is executed on which
   path; `Model/Conn` ends with a small reference executor (strings only) that the correspondence
@@ -33,9 +35,13 @@ structure Config where
   /-- `read_buffer_size`: one `read()` returns at most this many bytes -/
   readSize : Nat
   maxBuffer : Nat
+  /-- `true` = the recognisers add the declared lengths with `checked_add` and decline on overflow
+      (after fix 7196080); `false` = wrapping `+` (the pinned code) -/
+  checked : Bool
+  /-- the generic decoder: `codec1` (after the fixes) or `codec1Pinned` -/
+  codec : Codec
   /-- machine resources of the generic decoder (Model/Resp) -/
   env : Env
-  deriving Repr
 
 /-- `*2\r\n$3\r\nGET\r\n` and the lower-case variant the code also accepts -/
 def getHdrU : Bytes := [42, 50, 13, 10, 36, 51, 13, 10, 71, 69, 84, 13, 10]
@@ -70,6 +76,10 @@ def parseUsize : Bytes → Option Nat
 def slice (buf : Bytes) (a b : Nat) : Option Bytes :=
   if a > b ∨ b > buf.length then none else some ((buf.take b).drop a)
 
+/-- `a + b` on `usize`: `checked_add` (`none` = overflow) or wrapping -/
+def addU (checked : Bool) (a b : Nat) : Option Nat :=
+  if checked then (if a + b < W then some (a + b) else none) else some ((a + b) % W)
+
 /-- result of one recogniser pass over the front of the buffer -/
 inductive Recog where
   | get (key : Bytes) (total : Nat)              -- recognised `GET key`, `total` bytes to consume
@@ -80,7 +90,7 @@ inductive Recog where
   deriving Repr, Inhabited
 
 /-- body shared by `collect_get_keys` and `try_fast_get` -/
-def recogGet (h : Nat) (buf : Bytes) : Recog :=
+def recogGet (h : Nat) (ck : Bool) (buf : Bytes) : Recog :=
   if ¬ (startsWith buf getHdrU || startsWith buf getHdrL) then .notFast
   else if buf.length < h + 1 then .needMore
   else
@@ -95,15 +105,18 @@ def recogGet (h : Nat) (buf : Bytes) : Recog :=
         | none => .notFast
         | some keyLen =>
           let keyStart := h + 1 + lenEnd + 1
-          let total := (keyStart + keyLen + 2) % W
-          if buf.length < total then .needMore
-          else
-            match slice buf keyStart ((keyStart + keyLen) % W) with
-            | none => .crash
-            | some key => .get key total
+          -- `key_start.checked_add(key_len).and_then(|n| n.checked_add(2))` / `key_start + key_len + 2`
+          match (addU ck keyStart keyLen).bind (fun e => addU ck e 2) with
+          | none => .notFast
+          | some total =>
+            if buf.length < total then .needMore
+            else
+              match slice buf keyStart ((keyStart + keyLen) % W) with
+              | none => .crash
+              | some key => .get key total
 
 /-- body shared by `collect_set_pairs` and `try_fast_set` -/
-def recogSet (h : Nat) (buf : Bytes) : Recog :=
+def recogSet (h : Nat) (ck : Bool) (buf : Bytes) : Recog :=
   if ¬ (startsWith buf setHdrU || startsWith buf setHdrL) then .notFast
   else if buf.length < h + 1 then .needMore
   else
@@ -117,26 +130,30 @@ def recogSet (h : Nat) (buf : Bytes) : Recog :=
         | none => .notFast
         | some keyLen =>
           let keyStart := h + 1 + keyLenCrlf + 2
-          let keyEnd := (keyStart + keyLen) % W
-          let valLenStart := (keyEnd + 2) % W
-          if buf.length < (valLenStart + 1) % W then .needMore
-          else if valLenStart ≥ buf.length then .crash           -- `buf[val_len_start]` out of bounds
-          else if buf[valLenStart]? ≠ some 36 then .notFast
-          else
-            let afterKey := buf.drop (valLenStart + 1)
-            match memchrCR afterKey with
-            | none => .needMore
-            | some valLenCrlf =>
-              match parseUsize (afterKey.take valLenCrlf) with
-              | none => .notFast
-              | some valLen =>
-                let valStart := (valLenStart + 1 + valLenCrlf + 2) % W
-                let total := (valStart + valLen + 2) % W
-                if buf.length < total then .needMore
-                else
-                  match slice buf keyStart keyEnd, slice buf valStart ((valStart + valLen) % W) with
-                  | some key, some val => .set key val total
-                  | _, _ => .crash
+          match (addU ck keyStart keyLen).bind (fun e => (addU ck e 2).map (fun v => (e, v))) with
+          | none => .notFast
+          | some (keyEnd, valLenStart) =>
+            -- fixed: `buf.len() <= val_len_start`; pinned: `buf.len() < val_len_start + 1` (wrapping)
+            if (if ck then buf.length ≤ valLenStart else buf.length < (valLenStart + 1) % W) then .needMore
+            else if valLenStart ≥ buf.length then .crash           -- `buf[val_len_start]` out of bounds
+            else if buf[valLenStart]? ≠ some 36 then .notFast
+            else
+              let afterKey := buf.drop (valLenStart + 1)
+              match memchrCR afterKey with
+              | none => .needMore
+              | some valLenCrlf =>
+                match parseUsize (afterKey.take valLenCrlf) with
+                | none => .notFast
+                | some valLen =>
+                  let valStart := valLenStart + 1 + valLenCrlf + 2
+                  match (addU ck valStart valLen).bind (fun e => addU ck e 2) with
+                  | none => .notFast
+                  | some total =>
+                    if buf.length < total then .needMore
+                    else
+                      match slice buf keyStart keyEnd, slice buf valStart ((valStart + valLen) % W) with
+                      | some key, some val => .set key val total
+                      | _, _ => .crash
 
 /-- which code path carried a command -/
 inductive Path where
@@ -157,23 +174,23 @@ def getFrame (key : Bytes) : Val := .array [.bulk [71, 69, 84], .bulk key]
 def setFrame (key val : Bytes) : Val := .array [.bulk [83, 69, 84], .bulk key, .bulk val]
 
 /-- `collect_get_keys`: recognised frames and the remaining buffer; `none` = panic -/
-def collectGet (h : Nat) : Nat → Bytes → Option (List Val × Bytes)
+def collectGet (h : Nat) (ck : Bool) : Nat → Bytes → Option (List Val × Bytes)
   | 0, buf => some ([], buf)
   | f + 1, buf =>
-    match recogGet h buf with
+    match recogGet h ck buf with
     | .get key total =>
-      match collectGet h f (buf.drop total) with
+      match collectGet h ck f (buf.drop total) with
       | some (ks, r) => some (getFrame key :: ks, r)
       | none => none
     | .crash => none
     | _ => some ([], buf)
 
-def collectSet (h : Nat) : Nat → Bytes → Option (List Val × Bytes)
+def collectSet (h : Nat) (ck : Bool) : Nat → Bytes → Option (List Val × Bytes)
   | 0, buf => some ([], buf)
   | f + 1, buf =>
-    match recogSet h buf with
+    match recogSet h ck buf with
     | .set key val total =>
-      match collectSet h f (buf.drop total) with
+      match collectSet h ck f (buf.drop total) with
       | some (ks, r) => some (setFrame key val :: ks, r)
       | none => none
     | .crash => none
@@ -207,12 +224,12 @@ structure St where
 def St.init : St := ⟨[], false, false⟩
 
 /-- `try_fast_path` (the default user has unrestricted keys); never during MULTI -/
-def fastPath (h : Nat) (inTx : Bool) (buf : Bytes) : Recog :=
+def fastPath (h : Nat) (ck : Bool) (inTx : Bool) (buf : Bytes) : Recog :=
   if inTx then .notFast
   else if buf.length < 12 then .notFast
   else
-    match recogGet h buf with
-    | .notFast => recogSet h buf
+    match recogGet h ck buf with
+    | .notFast => recogSet h ck buf
     | r => r
 
 /-- the sequential loop: `try_execute_command` until NeedMoreData / ParseError.
@@ -220,7 +237,7 @@ def fastPath (h : Nat) (inTx : Bool) (buf : Bytes) : Recog :=
 def seqLoop (cfg : Config) : Nat → Bytes → Bool → List Action × Bytes × Bool × Bool
   | 0, buf, inTx => ([], buf, inTx, false)
   | f + 1, buf, inTx =>
-    match fastPath cfg.headerLen inTx buf with
+    match fastPath cfg.headerLen cfg.checked inTx buf with
     | .get key total =>
       let (as, r, tx, cr) := seqLoop cfg f (buf.drop total) inTx
       (.exec (getFrame key) .fast :: as, r, tx, cr)
@@ -230,7 +247,7 @@ def seqLoop (cfg : Config) : Nat → Bytes → Bool → List Action × Bytes × 
     | .needMore => ([], buf, inTx, false)
     | .crash => ([.crash], [], inTx, true)
     | .notFast =>
-      match (parse1 cfg.env buf).out with
+      match (parseG cfg.codec cfg.env buf).out with
       | .ok v k =>
         let (as, r, tx, cr) := seqLoop cfg f (buf.drop k) (txAfter inTx v)
         (.exec v .generic :: as, r, tx, cr)
@@ -246,11 +263,11 @@ def batchActs (cfg : Config) (fs : List Val) : List Action :=
 /-- the batching gate in front of the sequential loop; `none` = a collector panicked -/
 def batchGate (cfg : Config) (inTx : Bool) (fuel : Nat) (buf : Bytes) : Option (List Action × Bytes) :=
   if buf.length ≥ cfg.minPipeline ∧ ¬ inTx then
-    match collectGet cfg.headerLen fuel buf with
+    match collectGet cfg.headerLen cfg.checked fuel buf with
     | none => none
     | some (gets, b1) =>
       if b1.length ≥ cfg.minPipeline then
-        match collectSet cfg.headerLen fuel b1 with
+        match collectSet cfg.headerLen cfg.checked fuel b1 with
         | none => none
         | some (sets, b2) => some (batchActs cfg gets ++ batchActs cfg sets, b2)
       else some (batchActs cfg gets, b1)
